@@ -300,7 +300,8 @@ fn large_counts(thorough: bool) -> Vec<(u32, usize)> {
         v.extend([(17, 999_999), (17, 1_000_000), (4, 1_000_000), (21, 1_234_567)]);
         // past the range of a 32-bit signed counter (a receiver that hears 1000 frames a second gets there in 25
         // days); streamed, about 40 minutes on one core - the other workers are long finished by then
-        v.push((11, (1usize << 31) + 5));
+        // (SQV_HUGE_N overrides the length - used to try the mechanism out with a shorter stream)
+        v.push((11, std::env::var("SQV_HUGE_N").ok().and_then(|x| x.parse().ok()).unwrap_or((1usize << 31) + 5)));
     }
     v
 }
@@ -356,7 +357,7 @@ fn huge_count_case(ctx: &mut Ctx, k: usize, n: usize) {
 
 fn large_count_case(ctx: &mut Ctx, k: usize, df: u32, n: usize) {
     use crate::run::{TimedStep, run_timed};
-    if n > (1 << 30) {
+    if n > (1 << 30) || (k == 9 && std::env::var("SQV_HUGE_N").is_ok()) {
         return huge_count_case(ctx, k, n);
     }
     let mk = |df: u32, i: u32| -> Vec<u8> {
@@ -373,6 +374,7 @@ fn large_count_case(ctx: &mut Ctx, k: usize, df: u32, n: usize) {
     let steps = vec![TimedStep { bytes: join_lines(&first), advance_ms: 10_000 }, TimedStep { bytes: join_lines(&[frames::df11(5, B, 0).hex().into_bytes()]), advance_ms: 0 }];
     let cfg = Cfg::named(&["-i", "", "-c", "-u", "3"], "count.fifo");
     let t = new_table();
+    crate::run::describe_current(&format!("C16 {n} frames of DF{df}, table drawn at the end"));
     let (rep, out) = capture_stdout(|| run_timed(&cfg, &steps, &t));
     ctx.eval();
     if let Some(m) = rep.machinery {
